@@ -628,6 +628,25 @@ example : setItem 40 exTreeH2 ['/', '/', 'a', '/', 'l', '[', '1', ']', '[', '-',
   C03_create_hidden_middle_elem .n0 _ [.key ['a'], .key ['l']] 1 .n0 [(['x'], .int 1)] (.neg 1) ['n'] [] (.int 5) 40
     ⟨pk_a, pk_l, trivial⟩ rfl (Or.inr rfl) (by decide) pk_n (by simp) (by decide) _ (by decide)
 
+/-- **C03 (index on the root: refused).**  On a dict root, `[e]/tail…` and `//[e]/tail…` with `e` denoting anything but
+`0` / `-1` (also `1`: no key holds the root) raise `SyntaxError` and the tree is the tree before the call. -/
+theorem C03_hidden_root_refused (cls : Cls) (kvs : List (Str × Val)) (e : IdxSp) (tail : List Str) (v : Val)
+    (fuel : Nat) (he : e.val ≥ 1 ∨ e.val < -1) (ht : ∀ x ∈ tail, PlainKey x) (hf : fuel ≥ 1) :
+    setItem fuel (.dict cls kvs) (bracket e.text ++ renderPos (tail.map Seg.key)) v
+      = (.dict cls kvs, .error .SyntaxError) ∧
+    setItem fuel (.dict cls kvs) (slash ++ slash ++ bracket e.text ++ renderPos (tail.map Seg.key)) v
+      = (.dict cls kvs, .error .SyntaxError) :=
+  setItem_hidden_root_refuse cls kvs e tail v fuel he ht hf
+
+/-- `d['[0+1]/x'] = 5` and `d['//[last()-1]/x'] = 5` on `exTreeH`: refused, nothing changes -/
+example : setItem 40 exTreeH ['[', '0', '+', '1', ']', '/', 'x'] (.int 5) = (exTreeH, .error .SyntaxError) :=
+  (C03_hidden_root_refused .n0 _ (.plus 0 1) [['x']] (.int 5) 40 (Or.inl (by decide))
+    (by intro m hm; simp at hm; subst hm; exact pk_x) (by decide)).1
+example : setItem 40 exTreeH ['/', '/', '[', 'l', 'a', 's', 't', '(', ')', '-', '1', ']', '/', 'x'] (.int 5)
+    = (exTreeH, .error .SyntaxError) :=
+  (C03_hidden_root_refused .n0 _ (.lastMinus 1) [['x']] (.int 5) 40 (Or.inr (by decide))
+    (by intro m hm; simp at hm; subst hm; exact pk_x) (by decide)).2
+
 /-- `d['//a/n/m'] = 5` through `C03_create_names` -/
 example : setItem 40 exTree2 ['/', '/', 'a', '/', 'n', '/', 'm'] (.int 5)
     = (.dict .n0 [(['a'], .dict .n0 [(['l'], .list .n0 [.int 1]), (['k'], .str ['s']),
